@@ -351,6 +351,20 @@ func (m *Monitors) onERS(inv *simapi.Invocation, out kit.Outcome) {
 			if role == "active" && canaryInProgress && v.Canary[kit.NodeOfPod(pre)] {
 				m.viol("C04", "C04.active-hands-off", map[string]string{"verb": "delete"}, inv, map[string]any{"pod": podKey(pre), "callsite": c.Callsite})
 			}
+			// the canary replica set must leave the other nodes' serving pod alone ("every other
+			// eligible node keeps being served with the active template"): deleting the only
+			// daemon pod of a non-canary node is judged (duplicate resolution there is not)
+			if role == "canary" && !v.Canary[kit.NodeOfPod(pre)] && kit.NodeOfPod(pre) != "" {
+				n := 0
+				for _, p := range podsByNode[kit.NodeOfPod(pre)] {
+					if p.Status.Phase != corev1.PodFailed && p.Status.Phase != corev1.PodUnknown {
+						n++
+					}
+				}
+				if n == 1 && pre.Status.Phase != corev1.PodFailed && v.Nodes[kit.NodeOfPod(pre)] != nil {
+					m.viol("C04", "C04.canary-hands-off", map[string]string{"verb": "delete", "node-eligible-for-new-template": fmt.Sprint(eligible(kit.NodeOfPod(pre)))}, inv, map[string]any{"pod": podKey(pre), "node": kit.NodeOfPod(pre), "callsite": c.Callsite})
+				}
+			}
 		case "patch":
 			if c.Pre != nil && c.Pre.(*corev1.Pod).Status.Phase == corev1.PodUnknown {
 				ctx.Count("C01.unknown-pod-label-patches")
@@ -372,6 +386,12 @@ func (m *Monitors) onERS(inv *simapi.Invocation, out kit.Outcome) {
 				continue // hidden from the active replica set
 			}
 			if !eligible(node) {
+				if role == "canary" && !v.Canary[node] {
+					// nodes outside the canary list are the active replica set's business: the
+					// canary replica set judging them against *its* template would take pods of
+					// the active template away from nodes the new template no longer selects
+					continue
+				}
 				for _, p := range pods {
 					if p.Status.Phase == corev1.PodUnknown || p.DeletionTimestamp != nil {
 						continue
@@ -382,6 +402,9 @@ func (m *Monitors) onERS(inv *simapi.Invocation, out kit.Outcome) {
 					}
 				}
 				continue
+			}
+			if role == "canary" && !v.Canary[node] {
+				continue // duplicates on the other nodes are resolved by the active replica set
 			}
 			var such []*corev1.Pod
 			nFailed := 0
@@ -415,6 +438,37 @@ func (m *Monitors) onERS(inv *simapi.Invocation, out kit.Outcome) {
 
 	if role == "active" && v.HasPods && !invFaulted(inv) {
 		m.budget(inv, v, podsByNode, updateDeletes, eligible)
+	}
+	// C04 label-on: a canary-role sync makes sure its own pod on each canary node carries the canary label
+	if role == "canary" && managed {
+		patched := map[string]bool{}
+		for _, c := range inv.Calls {
+			if c.Verb == "patch" && c.Kind == simapi.KindPod && c.Submitted != nil && c.Submitted.GetLabels()[v1.ExtendedDaemonSetReplicaSetCanaryLabelKey] == v1.ExtendedDaemonSetReplicaSetCanaryLabelValue {
+				patched[c.NS+"/"+c.Name] = true
+			}
+		}
+		for node := range v.Canary {
+			if !eligible(node) {
+				continue
+			}
+			var such []*corev1.Pod
+			for _, p := range podsByNode[node] {
+				if p.Status.Phase != corev1.PodFailed && p.Status.Phase != corev1.PodUnknown {
+					such = append(such, p)
+				}
+			}
+			if len(such) == 0 {
+				continue
+			}
+			p := oracle.Representative(such)[0]
+			if p.Labels[v1.ExtendedDaemonSetReplicaSetNameLabelKey] != v.RS.Name {
+				continue // a pod of another replica set still sits there (it is deleted first)
+			}
+			ctx.Count("C04.label-on-judged")
+			if p.Labels[v1.ExtendedDaemonSetReplicaSetCanaryLabelKey] != v1.ExtendedDaemonSetReplicaSetCanaryLabelValue && !patched[podKey(p)] && deleted[podKey(p)] == nil {
+				m.viol("C04", "C04.label-on", nil, inv, map[string]any{"pod": podKey(p), "node": node})
+			}
+		}
 	}
 	// C08 paused: no update deletions
 	if role == "active" && v.EDS.Annotations[v1.ExtendedDaemonSetRollingUpdatePausedAnnotationKey] == "true" && len(updateDeletes) > 0 {
@@ -632,6 +686,7 @@ func (m *Monitors) budget(inv *simapi.Invocation, v *ERSView, podsByNode map[str
 	}
 	if len(updateDeletes) > MU {
 		m.viol("C03", "C03.cap", map[string]string{"mixed": "sim", "stuck": fmt.Sprint(stuck > 0)}, inv, d)
+		m.viol("C09", "C09.delete-cap", map[string]string{"sim": "true"}, inv, d)
 	}
 }
 
@@ -827,6 +882,9 @@ func (m *Monitors) onEDS(inv *simapi.Invocation, out kit.Outcome) {
 			}
 			if asRead.Status.Desired+asRead.Status.Current+asRead.Status.Ready+asRead.Status.Available != 0 {
 				m.viol("C13", "C13.delete-only-empty", nil, inv, d)
+				if oracle.RSCond(asRead, v1.ConditionTypeCanaryFailed) {
+					m.viol("C07", "C07.deleted-only-once-empty", nil, inv, d)
+				}
 			}
 			// C07 retention
 			if oracle.RSCond(asRead, v1.ConditionTypeCanaryFailed) {
